@@ -3,7 +3,7 @@
    Only statements, `exact`, Print Assumptions. *)
 From Coq Require Import List Arith Bool ZArith QArith Qcanon.
 From PV Require Import Base.Index Np.Array Model.Sparse Model.Repr Model.Harness Model.C11Apr Model.C11Rows Model.C11Check
-                       Model.C11Replay Proofs.C11Replay.
+                       Model.C11Replay Model.C11Lbfgs Proofs.C11Replay Proofs.C11Lbfgs.
 Import ListNotations.
 
 (* whatever the recorded tables contain (any gradients, any directions, step lengths, fallback flags — also missing entries), for
@@ -36,3 +36,26 @@ Example C11_example_rows_replay :
       ([19 # 2], [[[11 # 19]; [8 # 19]]; [[1 # 4]; [3 # 4]]], [1 # 2], [1%nat])%Q
   end.
 Proof. exact rows_replay_ex. Qed.
+
+(* The mechanism of finding C11-F1 inside the transliteration of get_search_dir_pqnr (Model/C11Lbfgs.v; op lbfgs_dir compares it with
+   pyttb's function on direct calls): rank-1 row, default memory 3, one stored pair with non-zero curvature product, free variable:
+   at inner iteration 1 or 2 the returned direction is EXACTLY 0 (the row cannot move, the next pair is degenerate, the assertion
+   follows unless the row already satisfies the KKT tolerance) ... *)
+Theorem C11_lbfgs_dir_1d_zero : forall (eps m0 g0 s y : Qc) (iters : nat),
+  (s * y)%Qc <> Q2Qc 0 -> fixed_vars eps [m0] [g0] = [false] -> (iters = 1 \/ iters = 2)%nat ->
+  search_dir_pqnr eps [m0] [g0] [[s]; [q0]; [q0]] [[y]; [q0]; [q0]] [(/ (s * y))%Qc; q0; q0] 0 iters = [q0].
+Proof. exact dir_1d_zero_gen. Qed.
+(* ... whereas with memory 1 the same state yields the secant step -(s / y) g *)
+Theorem C11_lbfgs_dir_1d_mem1 : forall (eps m0 g0 s y : Qc),
+  (s * y)%Qc <> Q2Qc 0 -> fixed_vars eps [m0] [g0] = [false] ->
+  search_dir_pqnr eps [m0] [g0] [[s]] [[y]] [(/ (s * y))%Qc] 0 1 = [(- (s / y) * g0)%Qc].
+Proof. exact dir_1d_mem1. Qed.
+Print Assumptions C11_lbfgs_dir_1d_zero.
+Print Assumptions C11_lbfgs_dir_1d_mem1.
+
+Example C11_example_lbfgs_dir :
+  search_dir_pqnr (Q2Qc (1 # 100000000)) [Q2Qc (5 # 2)] [Q2Qc (1 # 4)] [[Q2Qc (1 # 2)]; [q0]; [q0]] [[Q2Qc (-1 # 8)]; [q0]; [q0]]
+                  [Q2Qc (-16 # 1); q0; q0] 0 1 = [q0]
+  /\ map this (search_dir_pqnr (Q2Qc (1 # 100000000)) [Q2Qc (5 # 2)] [Q2Qc (1 # 4)] [[Q2Qc (1 # 2)]] [[Q2Qc (-1 # 8)]] [Q2Qc (-16 # 1)] 0 1)
+     = [1 # 1]%Q.
+Proof. exact dir_1d_zero_ex. Qed.
